@@ -80,6 +80,35 @@ def mk_space(s):
     raise ValueError(k)
 
 
+def spec_key(s):
+    """Description of a domain at the level of its constructor ARGUMENTS, with the documented defaults filled
+    in and scalar / sequence spellings identified: two specs with the same key are 'equal descriptions'.
+    (RG: distances None = 1/n in position space and 1 in harmonic space; LM: mmax None = lmax;
+    GL: nlon None = 2*nlat-1; a scalar shape / distance is the 1-tuple / the broadcast tuple.)"""
+    k = s[0]
+    if k == "rg":
+        shape = tuple(int(n) for n in (s[1] if isinstance(s[1], list) else [s[1]]))
+        d = s[2]
+        if d is None:
+            dist = tuple(1.0 for _ in shape) if s[3] else tuple(float(1. / np.float64(n)) for n in shape)
+        else:
+            dist = tuple(float(x) for x in d) if isinstance(d, list) else tuple(float(d) for _ in shape)
+        return ("RGSpace", shape, dist, bool(s[3]))
+    if k == "lm":
+        return ("LMSpace", int(s[1]), int(s[1] if s[2] is None else s[2]))
+    if k == "gl":
+        return ("GLSpace", int(s[1]), int(2 * s[1] - 1 if s[2] is None else s[2]))
+    if k == "hp":
+        return ("HPSpace", int(s[1]))
+    if k == "power":
+        return ("PowerSpace", spec_key(s[1]), None if s[2] is None else tuple(float(x) for x in s[2]))
+    if k == "dof":
+        return ("DOFSpace", tuple(float(x) for x in s[1]))
+    if k == "unstructured":
+        return ("UnstructuredDomain", tuple(int(x) for x in (s[1] if isinstance(s[1], list) else [s[1]])))
+    raise ValueError(k)
+
+
 def desc_key(obj):
     """Description of a Domain through its PUBLIC attributes (independent of __eq__/__hash__ and of
     `_needed_for_hash`): class name + constructor-level parameters."""
@@ -164,6 +193,9 @@ def gen_cases(ctx):
     # repeated queries on ONE domain object, interleaved with useful_binbounds / PowerSpace construction
     for i in range(16 if ctx.quick else 100):
         cases.append(gen_qhist(rng, i))
+    # one description, many spellings of every constructor argument
+    for i in range(24 if ctx.quick else 160):
+        cases.append(gen_spell(rng, i))
     # single domains through pickle / deepcopy (also twice, also via the codomain)
     for i in range(30 if ctx.quick else 200):
         cases.append(gen_dround(rng, i))
@@ -191,6 +223,111 @@ def gen_cases(ctx):
             keys.append([hi, [None, None, m[:1], m][int(rng.integers(0, 4))]])
         cases.append({"kind": "pcache", "keys": keys})
     return cases
+
+
+SENSITIVE = [0.789, 1.3, 0.3, 0.7, 1.1, 2.5, 0.1, 0.37, 1.9]
+
+
+def gen_spell(rng, i):
+    """One description, several spellings of every constructor argument (int / tuple / list / ndarray shape,
+    float / numpy scalar / tuple / list / ndarray distances, defaults written out), on values where
+    1/n/d, 1/(n*d) and their reciprocals differ in the last bit."""
+    r = i % 4
+    if r < 3:
+        nd = int(rng.choice([1, 1, 2, 3]))
+        sh = [int(x) for x in rng.choice([3, 5, 6, 7, 9, 11, 13], size=nd)]
+        d = float(rng.choice(SENSITIVE))
+        harm = bool(r != 1)
+        hows = [["tuple", "scalar"], ["list", "tuple"], ["array", "npscalar"], ["tuple", "list"], ["list", "array"]]
+        if nd == 1:
+            hows += [["int", "scalar"], ["npint", "tuple"], ["int", "array"]]
+        return {"kind": "spell", "cls": "rg", "shape": sh, "dist": d, "harmonic": harm, "hows": hows}
+    q = int(rng.integers(0, 4))
+    if q == 0:
+        lmax = int(rng.integers(0, 7))
+        return {"kind": "spell", "cls": "lm", "lmax": lmax, "hows": [["int", "none"], ["int", "int"], ["npint", "npint"], ["float", "none"]]}
+    if q == 1:
+        return {"kind": "spell", "cls": "gl", "nlat": int(rng.integers(1, 6)), "hows": [["int", "none"], ["int", "int"], ["npint", "npint"]]}
+    if q == 2:
+        return {"kind": "spell", "cls": "unstructured", "n": int(rng.integers(1, 6)), "hows": [["int"], ["tuple"], ["list"], ["npint"]]}
+    n = int(rng.choice([5, 7, 9]))
+    d = float(rng.choice(SENSITIVE))
+    u = ref_unique(["rg", [n], d, True])
+    bb = [float(0.5 * (u[0] + u[1])), float(0.5 * (u[1] + u[2]))]
+    return {"kind": "spell", "cls": "power", "n": n, "dist": d, "bb": bb if rng.integers(0, 2) else None,
+            "hows": [["scalar", "tuple"], ["tuple", "list"], ["scalar", "array"], ["list", "tuple"]]}
+
+
+def build_spelled(case, how):
+    ift = quiet()
+    c = case["cls"]
+
+    def num(x, h):
+        return {"int": int(x), "npint": np.int64(x), "float": float(x)}[h]
+
+    def seq(xs, h, scalar_ok):
+        if h in ("scalar", "npscalar"):
+            assert scalar_ok
+            return float(xs[0]) if h == "scalar" else np.float64(xs[0])
+        return {"tuple": tuple(xs), "list": list(xs), "array": np.array(xs)}[h]
+    if c == "rg":
+        sh = case["shape"]
+        shape = num(sh[0], how[0]) if how[0] in ("int", "npint") else seq(sh, how[0], False)
+        return ift.RGSpace(shape, distances=seq([case["dist"]] * len(sh), how[1], True), harmonic=case["harmonic"])
+    if c == "lm":
+        return ift.LMSpace(num(case["lmax"], how[0])) if how[1] == "none" else ift.LMSpace(num(case["lmax"], how[0]), num(case["lmax"], how[1]))
+    if c == "gl":
+        n = case["nlat"]
+        return ift.GLSpace(num(n, how[0])) if how[1] == "none" else ift.GLSpace(num(n, how[0]), num(2 * n - 1, how[1]))
+    if c == "unstructured":
+        n = case["n"]
+        return ift.UnstructuredDomain(num(n, how[0]) if how[0] in ("int", "npint") else seq([n], how[0], False))
+    if c == "power":
+        h = ift.RGSpace(case["n"], distances=seq([case["dist"]], how[0], True), harmonic=True)
+        return ift.PowerSpace(h) if case["bb"] is None and how[1] == "tuple" else ift.PowerSpace(h, None if case["bb"] is None else seq(case["bb"], how[1], False))
+    raise ValueError(c)
+
+
+def state_bits(o):
+    """The identifying internal state of a domain, bit for bit (recursively)."""
+    from nifty.cl.domains.domain import Domain
+
+    def conv(v):
+        if isinstance(v, Domain):
+            return state_bits(v)
+        if isinstance(v, (tuple, list, np.ndarray)):
+            return tuple(conv(x) for x in v)
+        if isinstance(v, (float, np.floating)):
+            return float(v).hex()
+        if isinstance(v, (bool, np.bool_)):
+            return bool(v)
+        if isinstance(v, (int, np.integer)):
+            return int(v)
+        return v
+    return (type(o).__name__,) + tuple(conv(vars(o)[k]) for k in o._needed_for_hash)
+
+
+def run_spell(case):
+    ift = quiet()
+    objs = [build_spelled(case, h) for h in case["hows"]]
+    n = len(objs)
+    out = {"eq": all(bool(objs[i] == objs[j]) and not (objs[i] != objs[j]) for i in range(n) for j in range(n)),
+           "hash": len({hash(o) for o in objs}) == 1,
+           "state": len({state_bits(o) for o in objs}) == 1,
+           "geom": all(geom(o) == geom(objs[0]) for o in objs),
+           "pub": len({desc_key(o) for o in objs}) == 1}
+    dts = [ift.DomainTuple.make(o if i % 2 else (o,)) for i, o in enumerate(objs)]
+    mds = [ift.MultiDomain.make({"a": o}) for o in objs]
+    out["classes"] = [next(j for j in range(i + 1) if dts[j] is dts[i]) for i in range(n)]
+    out["classes_md"] = [next(j for j in range(i + 1) if mds[j] is mds[i]) for i in range(n)]
+    if case["cls"] == "rg":
+        gs = []
+        for t in (objs[0], objs[-1]):
+            co = t.get_default_codomain()
+            gs.append(dict(distances=fl(t.distances), dvol=float(t.scalar_dvol), size=int(t.size), total=float(t.total_volume),
+                           extents=fl(t.extents), codist=fl(co.distances), codvol=float(co.scalar_dvol)))
+        out["geoms"] = gs
+    return out
 
 
 def gen_dround(rng, i):
@@ -311,6 +448,11 @@ SPELLINGS = [
     # recompute from them (1/(n*(1/(n*d))) != d): any re-creation must go through the internal state
     ["rg", 49, None, True], ["rg", [7], 0.3, True], ["rg", [5, 7], [0.3, 1.7], True], ["rg", [10, 13], 0.3, True],
     ["rg", 49, None, False], ["rg", [7], [0.3], True],
+    # scalar / sequence spellings of ONE description on rounding-sensitive values (1/n/d != 1/(n*d))
+    ["rg", [3], 0.789, True], ["rg", [3], [0.789], True], ["rg", 3, 0.789, True],
+    ["rg", [7], 1.3, True], ["rg", 7, [1.3], True],
+    ["rg", [3, 7], 0.789, True], ["rg", [3, 7], [0.789, 0.789], True],
+    ["rg", [3], 0.789, False], ["rg", 3, [0.789], False],
 ]
 
 
@@ -356,7 +498,7 @@ def run_history(case):
 
     def dt_value(sp, how):
         doms = [mk_space(SPELLINGS[i]) for i in sp]
-        d = tuple(desc_key(x) for x in doms)
+        d = tuple(spec_key(SPELLINGS[i]) for i in sp)
         if how == "single":
             return doms[0], d
         if how == "list":
@@ -395,8 +537,8 @@ def run_history(case):
         if which == "dt":
             return tuple(desc_key(x) for x in o)
         return tuple(sorted((k, tuple(desc_key(x) for x in v)) for k, v in o.items()))
-    changed = [i for i, (o, d) in enumerate(zip(objs, descs))
-               if observed(o) != (d if which == "dt" else tuple(sorted(d)))]
+    # a copy (make(obj), pickle, deepcopy) must have the public description of its source
+    changed = [i for i, op in enumerate(case["ops"]) if op[0] != "make" and observed(objs[i]) != observed(objs[op[1]])]
     return {"classes": classes, "descs": descs, "objs": objs, "changed": changed}
 
 
@@ -522,6 +664,8 @@ def run_case(case):
             obs.update(run_dround(case))
         elif k == "xproc":
             obs.update(run_xproc(case))
+        elif k == "spell":
+            obs.update(run_spell(case))
         elif k == "qhist":
             obs.update(run_qhist(case))
         elif k == "dof":
@@ -534,7 +678,7 @@ def run_case(case):
                 h = mk_space(PC_PARTNERS[sidx])
                 p = ift.PowerSpace(h, None if bb is None else tuple(bb))
                 arrs.append((p.pindex, p.k_lengths, p.dvol))
-                descs.append((desc_key(h), None if bb is None else tuple(bb)))
+                descs.append((spec_key(PC_PARTNERS[sidx]), None if bb is None else tuple(bb)))
             obs["classes"] = [next(j for j in range(i + 1) if arrs[j][0] is arrs[i][0]) for i in range(len(arrs))]
             obs["classes_k"] = [next(j for j in range(i + 1) if arrs[j][1] is arrs[i][1]) for i in range(len(arrs))]
             obs["classes_v"] = [next(j for j in range(i + 1) if arrs[j][2] is arrs[i][2]) for i in range(len(arrs))]
@@ -654,6 +798,21 @@ def coq_check_(case, obs):
         return " && ".join("(nat_list_eqb (pc_classes %s) %s)" % (cnats(keys), cnats(obs[c])) for c in ("classes", "classes_k", "classes_v"))
     if k == "qhist":
         return qhist_terms(case, obs)
+    if k == "spell":
+        # all spellings are ONE description: `Make d` n times in the hash-consing model, and the geometry is the
+        # pure function of the constructor arguments
+        if not (obs["eq"] and obs["hash"] and obs["state"] and obs["geom"] and obs["pub"]):
+            return "false"
+        n = len(case["hows"])
+        t = "nat_list_eqb (dt_classes %s) %s && nat_list_eqb (dt_classes %s) %s" % (
+            C.clist(["Make _ [0%nat]"] * n), cnats(obs["classes"]), C.clist(["Make _ [0%nat]"] * n), cnats(obs["classes_md"]))
+        if case["cls"] == "rg":
+            sh = case["shape"]
+            for g in obs["geoms"]:
+                t += " && rg_geom_ok %s (Some %s) %s %s %s %d%%nat %s %s %s %s" % (
+                    cnats(sh), cqs([case["dist"]] * len(sh)), C.cbool(case["harmonic"]), cqs(g["distances"]), cq(g["dvol"]), g["size"],
+                    cq(g["total"]), cqs(g["extents"]), cqs(g["codist"]), cq(g["codvol"]))
+        return t
     if k == "xproc":
         if not all(all(f) for f in obs["flags"]):
             return "false"
@@ -890,6 +1049,17 @@ def direct_failure_(case, obs):
     k = case["kind"]
     if k == "qhist":
         return qhist_failure(case, obs)
+    if k == "spell":
+        if obs["error"]:
+            return "constructing a %s domain raised %s (%s)" % (case["cls"], obs["error"], obs.get("message"))
+        what = {"eq": "compare unequal", "hash": "hash differently", "state": "have different internal state (bit for bit)",
+                "geom": "have different geometry (bit for bit)", "pub": "report different public attributes"}
+        for key, msg in what.items():
+            if not obs[key]:
+                return "scalar / sequence / numpy spellings %r of ONE %s description %s" % (case["hows"], case["cls"], msg)
+        if set(obs["classes"]) != {0} or set(obs["classes_md"]) != {0}:
+            return "DomainTuple / MultiDomain made from different spellings of one %s description are not the identical object" % case["cls"]
+        return None
     if k == "xproc":
         if obs["error"]:
             return "unpickling in a fresh process (PYTHONHASHSEED=%s) failed: %s" % (case["hashseed"], obs.get("message"))
@@ -999,7 +1169,7 @@ def run_xproc(case):
             o = ift.MultiDomain.make(dct)
             hash(o)
             items.append({"what": "md", "specs": [], "dict": {k: [SPELLINGS[i] for i in v] for k, v in entry[1].items()}, "blob": pickle.dumps(o).hex()})
-            codes.append(("md",) + tuple(sorted((k, tuple(desc_key(x) for x in v)) for k, v in dct.items())))
+            codes.append(("md",) + tuple(sorted((k, tuple(spec_key(SPELLINGS[i]) for i in v)) for k, v in entry[1].items())))
         else:
             specs = [SPELLINGS[i] for i in entry[1]]
             doms = tuple(mk_space(sp) for sp in specs)
@@ -1010,7 +1180,7 @@ def run_xproc(case):
             if entry[0] == "dom":
                 it["dblob"] = pickle.dumps(doms[0]).hex()
             items.append(it)
-            codes.append(("dt",) + tuple(desc_key(x) for x in doms))
+            codes.append(("dt",) + tuple(spec_key(sp) for sp in specs))
     env = dict(os.environ, PYTHONHASHSEED=str(case["hashseed"]))
     p = subprocess.run([sys.executable, "-c", XPROC], input=json.dumps(items), stdout=subprocess.PIPE, stderr=subprocess.PIPE,
                        text=True, env=env, timeout=900)
@@ -1038,10 +1208,10 @@ def subprocess_identity_failure(ctx):
     for sp in ([0], [1], [3], [4, 8], [4, 9], [17], [18], [19], [], [23], [24, 25], [28, 25], [26]):
         doms = tuple(mk_space(SPELLINGS[i]) for i in sp)
         objs.append(ift.DomainTuple.make(doms))
-        descs.append(("dt",) + tuple(desc_key(x) for x in doms))
+        descs.append(("dt",) + tuple(spec_key(SPELLINGS[i]) for i in sp))
     for dct in ({"a": [0], "b": [8]}, {"b": [9], "a": [2]}, {"a": [0]}, {"b": [0]}):
         objs.append(ift.MultiDomain.make({k: tuple(mk_space(SPELLINGS[i]) for i in v) for k, v in dct.items()}))
-        descs.append(("md",) + tuple(sorted((k, tuple(desc_key(mk_space(SPELLINGS[i])) for i in v)) for k, v in dct.items())))
+        descs.append(("md",) + tuple(sorted((k, tuple(spec_key(SPELLINGS[i]) for i in v)) for k, v in dct.items())))
     blobs = [pickle.dumps(o).hex() for o in objs]
     rc, out = C.sh([sys.executable, "-c", SUBPROC], input=json.dumps(blobs), timeout=120)
     if rc != 0:
@@ -1117,13 +1287,13 @@ class C08(C.Check):
             if (k == "lm" and c["lmax"] >= 1) or (k in ("rgtab", "rgtab_q") and int(np.prod(c["shape"])) >= 3) or \
                (k == "rggeom" and int(np.prod(c["shape"])) >= 2) or (k == "power" and o.get("hsize", 0) >= 3) or \
                (k == "qhist" and sum(1 for op in c["ops"] if op[0] in ("useful", "power_useful")) >= 1 and len(c["ops"]) >= 4) or \
-               (k == "dof" and len(c["weights"]) >= 2) or (k == "dround") or (k == "xproc") or \
+               (k == "dof" and len(c["weights"]) >= 2) or (k == "dround") or (k == "xproc") or (k == "spell") or \
                (k == "pcache" and len(set(o.get("classes", []))) >= 2 and len(set(o.get("classes", []))) < len(o.get("classes", []))) or \
                (k.startswith("hist_") and len(set(o.get("classes", []))) >= 2 and len(set(o.get("classes", []))) < len(o.get("classes", []))):
                 nontrivial.add(json.dumps(c, sort_keys=True))
         res.coverage.update({
             "evaluations": len(self.cases), "distinct_nontrivial": len(nontrivial),
-            "rule": "LMSpace all lmax<=%d,mmax<=lmax; harmonic RGSpace tables 1-D sizes 1-9, 2-D up to 6x6, 3-D up to 4^3 (equal and unequal distances, dyadic and non-dyadic); RG geometry 1-3 axes sizes 1-9 with None/scalar/tuple distances, both kinds; PowerSpace over RG 1-D/2-D and LM partners with natural, arbitrary ascending, at-k-value, linear and logarithmic bounds; DomainTuple/MultiDomain histories of make / make(obj) / pickle over a pool of %d domain spellings; histories of repeated get_unique_k_lengths / get_k_length_array / useful_binbounds / PowerSpace queries on ONE domain object (anisotropic and isotropic non-square RG up to 6x10, 1-D, LM) compared with a fresh object and the model; non-square equal-distance grids up to 6x10 / 4x6x9 in both axis orders; DOFSpace; identity classes of the cached power-index arrays; single domains of every class through pickle / deepcopy / double pickle (RG sizes incl. 49, 98, 103, 107 and non-dyadic distances, both kinds, also via the codomain): equality, hash, description, bit-exact geometry, canonical DomainTuple; every PowerSpace request repeated (retry after rejection, fresh equal partner); pickles of DomainTuples / MultiDomains / single domains (hash already cached) loaded in fresh interpreters with different PYTHONHASHSEED next to freshly made equal objects; non-trivial = more than a couple of pixels, resp. a history with both identical and distinct results; distinct by full case" % (5 if ctx.quick else 8, len(SPELLINGS)),
+            "rule": "LMSpace all lmax<=%d,mmax<=lmax; harmonic RGSpace tables 1-D sizes 1-9, 2-D up to 6x6, 3-D up to 4^3 (equal and unequal distances, dyadic and non-dyadic); RG geometry 1-3 axes sizes 1-9 with None/scalar/tuple distances, both kinds; PowerSpace over RG 1-D/2-D and LM partners with natural, arbitrary ascending, at-k-value, linear and logarithmic bounds; DomainTuple/MultiDomain histories of make / make(obj) / pickle over a pool of %d domain spellings; histories of repeated get_unique_k_lengths / get_k_length_array / useful_binbounds / PowerSpace queries on ONE domain object (anisotropic and isotropic non-square RG up to 6x10, 1-D, LM) compared with a fresh object and the model; non-square equal-distance grids up to 6x10 / 4x6x9 in both axis orders; DOFSpace; identity classes of the cached power-index arrays; single domains of every class through pickle / deepcopy / double pickle (RG sizes incl. 49, 98, 103, 107 and non-dyadic distances, both kinds, also via the codomain): equality, hash, description, bit-exact geometry, canonical DomainTuple; every PowerSpace request repeated (retry after rejection, fresh equal partner); scalar / sequence / numpy spellings of every constructor argument of one description on rounding-sensitive values (equality, hash, bit-exact internal state and geometry, canonical DomainTuple / MultiDomain); pickles of DomainTuples / MultiDomains / single domains (hash already cached) loaded in fresh interpreters with different PYTHONHASHSEED next to freshly made equal objects; non-trivial = more than a couple of pixels, resp. a history with both identical and distinct results; distinct by full case" % (5 if ctx.quick else 8, len(SPELLINGS)),
             "samples": [{"case": c} for c in self.cases[40:43]],
             "input_distribution": {"by_kind": kinds, "power_rejected": sum(1 for c, o in zip(self.cases, self.obs) if c["kind"] == "power" and o["error"] == "ValueError")},
             "disagreements": len(bad), "exhaustive": False,
